@@ -73,6 +73,7 @@ fn keygen_event<V: Fv>(proc_id: u64, thr: usize, seq: usize, seed: [u8; 32], tag
 /// keygen determinism: same seed repeated in one thread, across threads while other threads sign,
 /// and after intervening sign calls; plus all 256 single-bit flips of a base seed.
 fn keygen_events<V: Fv>(proc_id: u64, seed: u64, bases: usize, flips: usize, concurrent: bool) -> Vec<Value> {
+    let thorough_sweep = bases >= 4; // the full 2 x 256 byte sweep only in the thorough tier
     let mut rng = rng_for(seed, &format!("keygen-{}", V::N)); // same in every process
     let mut evs = vec![];
     let base_seeds: Vec<[u8; 32]> = (0..bases).map(|_| rng.gen()).collect();
@@ -106,7 +107,7 @@ fn keygen_events<V: Fv>(proc_id: u64, seed: u64, bases: usize, flips: usize, con
         let mut sweep: Vec<[u8; 32]> = vec![];
         for basev in [0u8, 255] {
             for v in 0..=255u8 {
-                if flips < 256 && !(v < 4 || v > 251 || (126..=129).contains(&v)) {
+                if (flips < 256 || !thorough_sweep) && !(v < 4 || v > 251 || (126..=129).contains(&v)) {
                     continue;
                 }
                 let mut s = [basev; 32];
